@@ -224,19 +224,9 @@ package chain
 //@   assigns ghost:states
 //@   requires [no-overwrite] !(cs.Index.ID in applied)
 //@   ensures states == old(states)[cs.Index.ID := cs]
-//@ iface Store.AddBlock
-//@   assigns ghost:hdr, ghost:body, ghost:supp
-//@   ensures hdr == old(hdr)[b.ID() := b.Header()] && body == old(body)[b.ID() := b]
-//@   ensures supp == ite(bs != nil, old(supp)[b.ID() := true], remove(old(supp), b.ID()))
 //@ iface Store.PruneBlock
 //@   assigns ghost:body, ghost:supp
 //@   ensures body == remove(old(body), id) && supp == remove(old(supp), id)
-//@ iface Store.ApplyBlock
-//@   assigns ghost:best, ghost:sheight, ghost:applied
-//@   ensures best == old(best)[s.Index.Height := s.Index.ID] && sheight == s.Index.Height && applied == old(applied)[s.Index.ID := true]
-//@ iface Store.RevertBlock
-//@   assigns ghost:best, ghost:sheight
-//@   ensures best == remove(old(best), s.Index.Height + 1) && sheight == s.Index.Height
 //@ iface Store.Flush
 //@   assigns nothing
 //@ iface Store.SupplementTipTransaction
@@ -253,7 +243,8 @@ package chain
 //@ pred storeInv() = !(types.BlockID{} in body) && (forall h uint64 :: { h in best } (h in best) <==> h <= sheight)
 //@   && (forall h uint64 :: { best[h] } h in best ==> (best[h] in states) && states[best[h]].Index.Height == h && states[best[h]].Index.ID == best[h])
 //@ pred prunedPrefix() = forall j uint64, k uint64 :: { best[j], best[k] } j < k && k <= sheight && !(best[k] in body) ==> !(best[j] in body)
-//@ pred managerInv(m *Manager) = m != nil && m.store != nil && storeInv() && m.tipState.Index.Height == sheight && best[sheight] == m.tipState.Index.ID
+//@ pred managerInv(m *Manager) = m != nil && m.store != nil && storeInv() && m.tipState.Index.Height == sheight && (sheight in best) && best[sheight] == m.tipState.Index.ID && m.tipState.Index.ID != types.BlockID{}
+//@   && (m.tipState.Index.ID in states) && states[m.tipState.Index.ID].Index == m.tipState.Index
 //
 // Records: a body is stored only with its header, a supplement only with its body; a block
 // that was applied keeps its supplement for as long as it keeps its body (pruning removes both).
@@ -350,11 +341,39 @@ package chain
 // C19-B5 (and the ingestion half of C01): AddBlocks never replaces the state of a block that
 // was applied to the best chain (precondition no-overwrite of Store.AddState), also when the
 // block's body has been pruned in the meantime.
-//@ func (*Manager).reorgTo
+// reorgPath (assumed here; its path shape is part of C13/C01-O4): when it succeeds, a non-empty
+// apply list ends at the target, and it never asks for more reverts than the start is high.
+//@ func (*Manager).reorgPath
+//@   assigns nothing
+//@   ensures err == nil ==> (len(apply) > 0 ==> apply[len(apply)-1] == b) && len(revert) <= a.Height
+//
+// reorgTo: only apply/revert steps move the tip; the single Flush comes after the last step;
+// success with at least one apply ends at the requested index; it is entered only when the
+// target is sufficiently heavier than the current tip, or to roll back a reorg that just failed.
+//@ func (*Manager).reorgTo props C01,C03
+//@   requires m != nil && m.store != nil
+//@   precall [gate] (called("SufficientlyHeavierThan") && callres("SufficientlyHeavierThan") && callarg("SufficientlyHeavierThan", 1) == m.tipState && callarg("SufficientlyHeavierThan", 0).Index == index)
+//@              || (called("reorgTo") && callres("reorgTo") != nil)
 //@   assigns *
-//@ func (*Manager).AddBlocks props C19,C04
+//@   trustcalls applyTip, revertTip
+//@   loop "range revert"
+//@     invariant m == old(m) && m.store == old(m.store) && -1 <= rangeindex && rangeindex < len(revert)
+//@   loop "range apply"
+//@     invariant m == old(m) && m.store == old(m.store) && -1 <= rangeindex && rangeindex < len(apply)
+//@   loop "range b.Transactions"
+//@     invariant m == old(m) && m.store == old(m.store) && -1 <= rangeindex && rangeindex < len(b.Transactions)
+//@   loop "range b.V2Transactions()"
+//@     invariant m == old(m) && m.store == old(m.store)
+//@   ensures [frame] m.store == old(m.store)
+//@   ensures [flush-last] result == nil ==> called("Store.Flush")
+//@   ensures [no-flush-on-error] result != nil ==> !mayHaveCalled("Store.Flush") || callres("Store.Flush") != nil
+//@ func (*Manager).AddBlocks props C19,C04,C01,C03
 //@   requires managerInv(m) && appliedInv() && recordInv()
 //@   ensures [no-notify-on-error] result != nil ==> !mayHaveCalled("funcvalue")
+//@   ensures [no-flush-outside-reorg] !mayHaveCalled("Store.Flush")
+//@   ensures [no-tip-change-without-reorg] !mayHaveCalled("reorgTo") ==> m.tipState == old(m.tipState) && best == old(best) && sheight == old(sheight)
+//@   ensures [rollback] result != nil && called("reorgTo") ==> callarg("reorgTo", 1) == old(m.tipState.Index)
+//@   ensures [rollback] result != nil && called("reorgTo") ==> callarg("reorgTo", 1) == old(m.tipState.Index)
 //@   loop "range blocks"
 //@     invariant m == old(m) && m.store == old(m.store) && m.store != nil && appliedInv() && recordInv()
 //@     invariant applied == old(applied) && best == old(best) && sheight == old(sheight)
@@ -407,3 +426,73 @@ package chain
 //@     invariant m == old(m)
 //@     invariant forall i int :: { v2txns[i] } 0 <= i && i < len(v2txns) ==> isCopy(v2txns[i])
 //@   ensures [copies] forall i int :: { result1[i] } 0 <= i && i < len(result1) ==> isCopy(result1[i])
+//
+// ---------------------------------------------------------------------------
+// C01 / C03: the tip moves only by validated apply steps and revert steps
+//
+// Further coherence of the abstract store used by the step contracts (assumed as
+// preconditions; established by the code that stores blocks and states, see AddBlocks/applyTip):
+// a stored body's parent state is one height below the block's own state, and the state kept
+// for a block is the state of that block.
+//@ pred chainCoherent() = (forall id types.BlockID :: { id in body } (id in body) && (id in states) && (body[id].ParentID in states) && states[id].Index.Height > 0 ==>
+//@        states[body[id].ParentID].Index.Height + 1 == states[id].Index.Height && body[id].ParentID != types.BlockID{})
+//@   && (forall id types.BlockID :: { id in states } (id in states) ==> states[id].Index.ID == id)
+//@   && (forall id types.BlockID :: { id in supp } (id in supp) ==> (id in states) && (id in body))
+//
+// The pool helpers never touch the tip or the store (assumed here; they are pool code, C05/C13).
+//@ func (*Manager).revertPoolUpdate
+//@   assigns heap:Manager, elems:types.V2Transaction, elems:types.V2SiacoinInput, elems:types.V2SiafundInput, elems:types.V2FileContractRevision, elems:types.V2FileContractResolution, elems:types.Hash256, heap:types.V2StorageProof
+//@   ensures m.tipState == old(m.tipState) && m.store == old(m.store) && m.expiringFileContractOrder == old(m.expiringFileContractOrder)
+//@ func (*Manager).applyPoolUpdate
+//@   assigns heap:Manager, elems:types.V2Transaction, elems:types.V2SiacoinInput, elems:types.V2SiafundInput, elems:types.V2FileContractRevision, elems:types.V2FileContractResolution, elems:types.Hash256, heap:types.V2StorageProof
+//@   ensures m.tipState == old(m.tipState) && m.store == old(m.store) && m.expiringFileContractOrder == old(m.expiringFileContractOrder)
+//@ func (*Manager).overwriteExpirations
+//@   assigns elems:types.FileContractElement, heap:consensus.V1BlockSupplement
+//
+//@ spec func PreValidatedBlock(b types.Block) bool
+// What may be stored and applied (C01-O2): a block gets a supplement only after ValidateBlock
+// accepted it against the tip on this path (or the caller vouches for it: AddValidatedV2Blocks);
+// a block is applied only when its state is stored and it carries a supplement.
+//@ iface Store.AddBlock
+//@   assigns ghost:hdr, ghost:body, ghost:supp
+//@   requires [validated] bs != nil ==> (called("ValidateBlock") && callres("ValidateBlock") == nil && callarg("ValidateBlock", 1) == b) || PreValidatedBlock(b)
+//@   ensures hdr == old(hdr)[b.ID() := b.Header()] && body == old(body)[b.ID() := b]
+//@   ensures supp == ite(bs != nil, old(supp)[b.ID() := true], remove(old(supp), b.ID()))
+//@ iface Store.ApplyBlock
+//@   assigns ghost:best, ghost:sheight, ghost:applied
+//@   requires [state-stored] s.Index.ID in states
+//@   requires [has-supplement] s.Index.ID in supp
+//@   requires [next-height] s.Index.Height == sheight + 1 || (s.Index.Height == 0 && !(0 in best))
+//@   ensures best == old(best)[s.Index.Height := s.Index.ID] && sheight == s.Index.Height && applied == old(applied)[s.Index.ID := true]
+//@ iface Store.RevertBlock
+//@   assigns ghost:best, ghost:sheight
+//@   requires [tip-parent] s.Index.Height + 1 == sheight
+//@   ensures best == remove(old(best), s.Index.Height + 1) && sheight == s.Index.Height
+//
+//@ func (*Manager).revertTip props C01,C03
+//@   requires managerInv(m) && chainCoherent() && recordInv() && sheight > 0
+//@   ensures [step] result == nil ==> sheight == old(sheight) - 1 && best == remove(old(best), old(sheight)) && m.tipState.Index.Height == sheight
+//@        && m.tipState == old(states[body[m.tipState.Index.ID].ParentID])
+//@   ensures [unchanged-on-error] result != nil ==> m.tipState == old(m.tipState) && best == old(best) && sheight == old(sheight)
+//@   ensures [no-flush] !mayHaveCalled("Store.Flush")
+//@   ensures [frame] m.store == old(m.store) && applied == old(applied) && body == old(body) && supp == old(supp) && hdr == old(hdr) && states == old(states)
+//
+//@ func (*Manager).applyTip props C01,C03
+//@   requires managerInv(m) && chainCoherent() && recordInv() && appliedInv()
+//@   ensures [step] result == nil ==> m.tipState.Index.ID == index.ID && sheight == m.tipState.Index.Height && best == old(best)[m.tipState.Index.Height := index.ID]
+//@        && (index.ID in supp) && (index.ID in applied)
+//@   ensures [unchanged-on-error] result != nil ==> m.tipState == old(m.tipState) && best == old(best) && sheight == old(sheight) && applied == old(applied)
+//@   ensures [no-flush] !mayHaveCalled("Store.Flush")
+//@   ensures [frame] m.store == old(m.store)
+//
+// AddValidatedV2Blocks: the caller vouches for validity (the syncer validates every block against
+// the checkpoint-derived state, C11); blocks must be v2, counts must match, the parent must be
+// known; the reorg gate is the same as for AddBlocks.
+//@ func (*Manager).AddValidatedV2Blocks props C01,C03
+//@   requires m != nil && m.store != nil
+//@   requires forall i int :: { blocks[i] } 0 <= i && i < len(blocks) ==> PreValidatedBlock(blocks[i])
+//@   loop "range blocks"
+//@     invariant m == old(m) && m.store == old(m.store) && -1 <= rangeindex && rangeindex < len(blocks) && len(states) == len(blocks)
+//@     invariant m.tipState == old(m.tipState) && best == old(best) && sheight == old(sheight)
+//@   ensures [no-flush-outside-reorg] !mayHaveCalled("Store.Flush")
+//@   ensures [no-tip-change-without-reorg] !mayHaveCalled("reorgTo") ==> m.tipState == old(m.tipState) && best == old(best) && sheight == old(sheight)
